@@ -1540,7 +1540,8 @@ TECHNIQUE = ('Coq proof (faithful model of the streamed and non-streamed map dri
              'interpreted and bounds-checked modes')
 LEVEL_TEXT = ('Theorems in coq/Props/C04.v about the Gallina model coq/Model/MapStream.v of ordered_map_valid_stream, '
               'ordered_map_valid_indexed_stream, safe_map_values, safe_map_indexed_values and map_valid; the model is '
-              'tied to /repo by running the extracted model and the real functions on the same generated cases.')
+              'tied to /repo by running the extracted model and the real functions on the same generated cases. Algebra: mapping '
+              'twice = mapping once through the composed map (map_spec_compose, map_stream_twice for any chunk sizes).')
 LEVEL_NOTE = ('Trusted: Coq kernel, extraction, harness, numba/numpy. The model is hand-written; the `Orig` version of '
               'the drivers (code before the fixes) is kept for the `_refuted` theorems and was run once against the '
               'unrepaired tree (C04_VARIANT=orig).')
